@@ -22,7 +22,7 @@ PROP = "C10"
 RULE = (
     "classes with 3 fields (a_x required, b aliased 'bee' with default, c with default) and 1..2 validators (plus 3 on "
     "a reduced alphabet: 12 (deps, kind) descriptors in quick, 16 in thorough): each validator has an enumerated dependency set (every non-empty subset of the fields, read "
-    "directly, through a helper method, through a property, through a functools.cached_property, or through a diamond of helper methods shared by the validators), a kind in {plain, validator(field), validator(f, discard=g), validator(discard=g) for "
+    "directly, through a helper method, through two helper methods calling each other, through a property, through a functools.cached_property, or through a diamond of helper methods shared by the validators), a kind in {plain, validator(field), validator(f, discard=g), validator(discard=g) for "
     "every field g}, an error style in {raise, yield message, yield (get_alias(self).f, message), yield (0, message)}, declared in the class or "
     "in a base class, or in a generic class deserialized as V[int] (also with the helper method it reads overridden in the subclass deserialized); x every datum assigning each field one of {absent, valid, invalid} x every pass/fail vector x aliaser "
     "in {identity, camelCase}. Observed: the exact sequence of validators invoked (each logs its name first), the sorted "
@@ -48,7 +48,7 @@ KINDS = [("plain", None)] + [("field", f) for f in FIELDS] + [("discard", f) for
 STYLES = ["raise", "yield", "yield_path", "yield_index0"]
 
 
-def validator_src(name: str, deps, kind, style, by_name: bool = False) -> List[str]:
+def validator_src(name: str, deps, kind, style, by_name: bool = False, cycle: bool = False) -> List[str]:
     k, target = kind
     L = []
     t = repr(target) if by_name else target  # a field inherited from a base class is named by a string
@@ -66,6 +66,10 @@ def validator_src(name: str, deps, kind, style, by_name: bool = False) -> List[s
     # a_x is read through a diamond of helpers by the first validator (via1 -> h_ax <- via2) and through one
     # branch only by the others: the dependency analysis of a helper must not depend on who asked first
     read_ax = {"v0": "(self.via1(), self.via2())[0]", "v1": "self.via2()", "v2": "self.via1()"}.get(name, "self.a_x")
+    if cycle:
+        # a_x read through two helpers calling each other (cyc_a reads a_x, cyc_b reads b): whoever enters the cycle,
+        # by either door, depends on both fields
+        read_ax = "self.cyc_a(1)" if name == "v0" else "self.cyc_b(1)"
     # c is read through a property by the first validator and through a functools.cached_property by the others
     read_c = READ["c"] if name == "v0" else "self.cached_c"
     L.append("        _ = (" + ", ".join((read_ax if d == "a_x" else read_c if d == "c" else READ[d]) for d in deps) + ",)")
@@ -108,7 +112,7 @@ def class_src(cname: str, vals: List[tuple], inherit: bool) -> str:
         "        return self.c",
     ]
     L = []
-    if inherit and inherit != "generic":
+    if inherit and inherit not in ("generic", "cycle"):
         base_ok = all(d in ("a_x", "b") for d in vals[0][1]) and (vals[0][2][1] in (None, "a_x", "b", "a_x>b", "b>a_x"))
         if not base_ok:
             return ""
@@ -133,8 +137,10 @@ def class_src(cname: str, vals: List[tuple], inherit: bool) -> str:
         L += head
         L.append("    c: TVc = field(default=0)" if inherit == "generic" else "    c: int = field(default=0)")
         L += helpers
+        if inherit == "cycle":
+            L += ["    def cyc_a(self, n=0):", "        return self.a_x + (self.cyc_b(n - 1) if n else 0)", "    def cyc_b(self, n=0):", "        return self.b + (self.cyc_a(n - 1) if n else 0)"]
         for v in vals:
-            L += validator_src(*v)
+            L += validator_src(*v, cycle=inherit == "cycle")
     return "\n".join(L)
 
 
@@ -157,7 +163,7 @@ def reference(vals: List[tuple], vec: Dict[str, str], fails: Dict[str, bool], al
     """(log, sorted errors, constructed?).  Order: declaration order within a class; between a class
     and its bases the property fixes nothing but 'a fixed order' — the library documents MRO order
     (derived class first), which is what is compared."""
-    if inherit and inherit != "generic":
+    if inherit and inherit not in ("generic", "cycle"):
         vals = list(vals[1:]) + [vals[0]]
     errors: List[Tuple[tuple, str]] = []
     invalid = set()
@@ -177,6 +183,8 @@ def reference(vals: List[tuple], vec: Dict[str, str], fails: Dict[str, bool], al
         if inherit == "override":
             # helper_b is overridden in the class deserialized: whoever reads b through it reads c
             deps = {"c" if d == "b" else d for d in deps}
+        if inherit == "cycle" and "a_x" in deps:
+            deps = deps | {"b"}
         if not (deps & provided):
             continue
         if deps & invalid:
@@ -300,6 +308,10 @@ def class_space(tier: str) -> Iterator[Tuple[List[tuple], bool]]:
     for (d0, k0), (d1, k1) in itertools.product(dk, dk):
         if k0[0] in ("plain", "field") and k1[0] in ("plain", "discard"):
             yield [("v0", d0, k0, "raise"), ("v1", d1, k1, "yield_path")], "generic"
+    # a_x read through mutually recursive helpers, entered by a different helper in each validator
+    for (d0, k0), (d1, k1) in itertools.product(dk, dk):
+        if "a_x" in d0 and "a_x" in d1 and k0[0] in ("plain", "discard") and k1[0] in ("plain", "field"):
+            yield [("v0", d0, k0, "raise"), ("v1", d1, k1, "raise")], "cycle"
     # a helper method read by the inherited validator is overridden in the subclass
     for (d0, k0), (d1, k1) in itertools.product(dk, dk):
         if "b" in d0 and all(d in ("a_x", "b") for d in d0) and k0[1] in (None, "a_x", "b") and k1[0] in ("plain", "discard"):
